@@ -5,6 +5,7 @@
 -/
 import Mtv.Lemmas.C12Loader
 import Mtv.Lemmas.C12Cut
+import Mtv.Lemmas.C12Alias
 import Mtv.Session.Start
 namespace Mtv.Session
 
@@ -276,5 +277,31 @@ theorem resume_on_the_wire (sha1 : Bytes → Bytes) (p : Path) (fs : FS) (s : Se
 example : (Client.firstMessage (fun k => k ++ k ++ k ++ k ++ k)
       { encrypted := true, authKey := [1, 2, 3, 4], authKeyHash := [9, 9, 9, 9, 9, 9, 9, 9], serverSalt := -2, addr := [0x68] }).keyId
     = [1, 2, 3, 4, 1, 2, 3, 4] := by decide
+
+/-! ## what the holders of session objects do afterwards (loader over a heap, `Mtv/Session/Alias.lean`) -/
+
+/-- Clause "is read back identically by the same loader", with session OBJECTS: for EVERY history of `Store`s (any
+modification times — equal ones included), `Load`s and writes by the holders of the objects the `Load`s handed out
+(`AEv.mutate`: any handed-out object overwritten with anything, at any time), every `Load` of the loader that returns a
+copy (the repaired code) returns the session stored last — nothing before the first `Store`. What a holder does with
+its object plays no part. -/
+theorem loads_unaffected_by_holders (evs : List AEv) : runA true AState.init evs = specA none evs :=
+  runA_copy_spec evs AState.init AInv.init
+
+example : runA true AState.init
+    [.store exampleSession 5, .load, .mutate 0 { exampleSession with salt := 6 }, .load,
+     .store { exampleSession with salt := 7 } 5, .mutate 1 exampleSession, .load] =
+    [some exampleSession, some exampleSession, some { exampleSession with salt := 7 }] := by
+  rw [loads_unaffected_by_holders]; rfl
+
+/-- The `Load` as it was (the cache object itself is handed out): `Store s; g := Load(); *g = s'; Load()` — the second
+`Load` returns `s'`, a session nobody stored, while the file still reads as `s`. The witness the harness replays:
+`c12.seq abs S:0:01,02,3,68:5 L:0 MG:0:ks L:0 F H` (corpus). -/
+theorem shared_cache_object_is_mutable :
+    let s : Session := { key := [1], hash := [2], salt := 3, hostname := [0x68] }
+    let s' : Session := { key := [0xfe], hash := [2], salt := -4, hostname := [0x68] }
+    runA false AState.init [.store s 5, .load, .mutate 0 s', .load] = [some s, some s'] ∧
+    specA none [.store s 5, .load, .mutate 0 s', .load] = [some s, some s] := by
+  decide
 
 end Mtv.Session
